@@ -120,6 +120,7 @@ TABLE = {
         ("Proofs/NClientP.v", ["client_retries", "client_rate_limited", "client_failover", "client_failover_exhausted", "client_times_out", "client_stays_alive", "client_token_expiry", "client_accepts_challenge", "client_accepts_keepalive", "client_denied", "client_server_disconnect"]),
         ("Proofs/NServerP.v", ["server_times_out_silent", "server_keeps_live", "pending_expires", "response_connects"]),
         ("Proofs/NAuthP.v", ["request_gets_challenge", "handshake_connects"]),
+        ("Proofs/NSysP.v", ["handshake_two_good_rounds", "handshake_inv_preserved", "handshake_completes_after_loss", "handshake_eventually", "handshake_eventually_closed", "handshake_liveness", "failover_round", "waiting_round", "failover_then_connects"]),
     ], ""),
     "C20": ("UDP netcode transport keeps message and handshake layers in lock-step", [
         ("Proofs/GlueP.v", ["nsstep_ids_step", "handle_result_lockstep", "tserver_update_lockstep", "tserver_update_events", "tserver_update_pushes_down", "app_step_lockstep", "tserver_send_lockstep", "tserver_disconnect_all_lockstep", "tclient_update_mirrors", "tclient_disconnect_spec", "client_recv_loop_spec", "recv_loop_surfaced", "payload_finds_connection", "wrun_inv", "world_events_alternate"]),
